@@ -49,8 +49,12 @@ impl Rng {
     pub fn f64(&mut self) -> f64 {
         (self.next() >> 11) as f64 / (1u64 << 53) as f64
     }
+    /// uniform in [lo, hi], quantised to 9 decimals so that the value survives a
+    /// JSON round trip exactly (serde_json's default float parser is exact only on
+    /// its fast path; `float_roundtrip` is deliberately not enabled because it would
+    /// also change how feos itself parses parameter files)
     pub fn uniform(&mut self, lo: f64, hi: f64) -> f64 {
-        lo + (hi - lo) * self.f64()
+        q9(lo + (hi - lo) * self.f64())
     }
     pub fn chance(&mut self, p: f64) -> bool {
         self.f64() < p
@@ -67,6 +71,18 @@ impl Rng {
     pub fn fork(&mut self) -> Rng {
         Rng(self.next())
     }
+}
+
+pub fn q9(x: f64) -> f64 {
+    (x * 1e9).round() / 1e9
+}
+
+/// What is executed is always the scenario as it would be read back from a replay file.
+pub fn roundtrip<S: Serialize + DeserializeOwned>(sc: &S) -> (S, Value) {
+    let text = serde_json::to_string(sc).expect("scenario to json");
+    let sc: S = serde_json::from_str(&text).expect("scenario from json");
+    let v: Value = serde_json::from_str(&text).expect("scenario value");
+    (sc, v)
 }
 
 /// FNV-style 64 bit hasher used for event-log digests (deterministic, no RandomState).
@@ -234,6 +250,8 @@ pub struct Options {
     pub workers: usize,
     pub digest_out: Option<String>,
     pub max_wall_s: f64,
+    /// debugging aid: execute only this run index
+    pub only: Option<u64>,
 }
 
 // ------------------------------------------------------------------ panic capture
@@ -421,14 +439,17 @@ pub fn run_engine<E: Engine>(engine: Arc<E>, opts: &Options) -> i32 {
             if i as u64 >= opts.runs || i > stop.load(Ordering::SeqCst) {
                 break;
             }
+            if let Some(only) = opts.only {
+                if i as u64 != only {
+                    continue;
+                }
+            }
             if t0.elapsed().as_secs_f64() > opts.max_wall_s {
                 break;
             }
             let seed = sub_seed(opts.seed, ename, i as u64);
             let (sc, scv) = if let Some(l) = &enumerated {
-                let sc = l[i].clone();
-                let v = serde_json::to_value(&sc).expect("scenario to json");
-                (sc, v)
+                roundtrip(&l[i])
             } else {
                 // scenario generation must not depend on hash order either
                 let engine = engine.clone();
@@ -437,9 +458,7 @@ pub fn run_engine<E: Engine>(engine: Arc<E>, opts: &Options) -> i32 {
                     .stack_size(16 << 20)
                     .spawn(move || {
                         set_thread_entropy(mix(seed ^ 0x1234));
-                        let sc = engine.generate(seed, tier);
-                        let v = serde_json::to_value(&sc).expect("scenario to json");
-                        (sc, v)
+                        roundtrip(&engine.generate(seed, tier))
                     })
                     .unwrap()
                     .join()
@@ -535,7 +554,8 @@ pub fn run_engine<E: Engine>(engine: Arc<E>, opts: &Options) -> i32 {
         exit = 1;
         let seed = sub_seed(opts.seed, ename, i);
         let entropy = mix(seed ^ 0xE17);
-        let sc: E::Scenario = serde_json::from_value(scv).expect("scenario roundtrip");
+        let sc: E::Scenario =
+            serde_json::from_str(&scv.to_string()).expect("scenario roundtrip");
         let (min_sc, min_v, steps_taken) = minimise(&engine, sc, v, entropy, &known);
         let dir = verif_dir().join("replays");
         let _ = std::fs::create_dir_all(&dir);
@@ -657,6 +677,7 @@ fn minimise<E: Engine>(
             break;
         }
         for cand in engine.shrink(&sc) {
+            let (cand, _) = roundtrip(&cand);
             let o = execute_isolated(engine, &cand, entropy);
             if let Some(v2) = o
                 .violations
